@@ -7,6 +7,7 @@ import (
 	"github.com/verily-src/fhirpath-go/fhirpath/system"
 	"github.com/verily-src/fhirpath-go/internal/fhir"
 	"github.com/verily-src/fhirpath-go/internal/protofields"
+	"google.golang.org/protobuf/reflect/protoreflect"
 )
 
 var (
@@ -67,9 +68,19 @@ func TypeOf(input any) (TypeSpecifier, error) {
 	if oneOf := protofields.UnwrapOneofField(item, "choice"); oneOf != nil {
 		item = oneOf
 	}
-	name := string(item.ProtoReflect().Descriptor().Name())
+	descriptor := item.ProtoReflect().Descriptor()
+	name := string(descriptor.Name())
 	if protofields.IsCodeField(item) {
 		return TypeSpecifier{FHIR, "code"}, nil
+	}
+	// Messages nested in a resource or datatype are its components: BackboneElements when
+	// they carry modifier extensions, plain Elements otherwise. They have no type name of
+	// their own, and their short name may coincide with an unrelated resource or datatype.
+	if _, nested := descriptor.Parent().(protoreflect.MessageDescriptor); nested {
+		if descriptor.Fields().ByName("modifier_extension") != nil {
+			return TypeSpecifier{FHIR, "BackboneElement"}, nil
+		}
+		return TypeSpecifier{FHIR, "Element"}, nil
 	}
 	return TypeSpecifier{FHIR, primitiveToLowercase(name)}, nil
 }
